@@ -157,7 +157,7 @@ func runC02(w *mon.W) {
 		}
 		return ref.CmdFromSegments(ss)
 	}
-	for i := 0; i < w.Share(w.Pick(600, 12000)); i++ {
+	for i := 0; i < w.Share(w.Pick(2400, 12000)); i++ {
 		n := 1 + w.Rng.IntN(8)
 		cmds := make([]string, n+1)
 		if w.Rng.IntN(2) == 0 {
@@ -196,7 +196,7 @@ func runC02(w *mon.W) {
 		}
 		return gen.Pick(w.Rng, segs)
 	}
-	for i := 0; i < w.Share(w.Pick(160, 3000)); i++ {
+	for i := 0; i < w.Share(w.Pick(600, 3000)); i++ {
 		n := 9 + w.Rng.IntN(40)
 		if i%4 == 0 {
 			n = 1 + w.Rng.IntN(8)
